@@ -638,9 +638,9 @@ func init() {
 		},
 		Required: c15Required(),
 		Plan: func(tier fw.Tier, seed int64) []fw.Batch {
-			n, p := 16, c15Params{Rounds: 30000, Inputs: 12}
+			n, p := 16, c15Params{Rounds: 60000, Inputs: 12}
 			if tier == fw.Thorough {
-				n, p = 64, c15Params{Rounds: 200000, Inputs: 16}
+				n, p = 96, c15Params{Rounds: 400000, Inputs: 16}
 			}
 			pj, _ := json.Marshal(p)
 			var bs []fw.Batch
